@@ -9,9 +9,9 @@ package jsonconfig
 // The duration getters multiply a configured number of milliseconds; wrap-around of
 // an absurdly large setting is not an error of interest here.
 //@ func (*Config).TimeoutOnEOF
-//@ requires[C07] config != nil
+//@ requires config != nil
 //@ arith wrap
 
 //@ func (*Config).WaitTimeOnEOF
-//@ requires[C07] config != nil
+//@ requires config != nil
 //@ arith wrap
